@@ -63,13 +63,22 @@ type ParserModel struct {
 }
 
 type pmCtx struct {
-	p      *Program
-	info   *types.Info
-	fd     *ast.FuncDecl
-	zero   types.Object
-	params types.Object
-	req    types.Object
-	m      *ParserModel
+	p       *Program
+	info    *types.Info
+	fd      *ast.FuncDecl
+	zero    types.Object
+	zeroNil bool // client side: the failure value is the literal nil
+	params  types.Object
+	req     types.Object
+	m       *ParserModel
+}
+
+// isZero: the expression is the parser's zero result (or nil on the client side).
+func (c *pmCtx) isZero(e ast.Expr) bool {
+	if c.zeroNil {
+		return isNilIdent(e)
+	}
+	return c.zero != nil && identObj(c.info, e) == c.zero
 }
 
 func (c *pmCtx) und(format string, a ...any) { c.m.Undecided = append(c.m.Undecided, fmt.Sprintf(format, a...)) }
@@ -182,7 +191,7 @@ func (c *pmCtx) isReject(list []ast.Stmt) bool {
 	if !ok || len(ret.Results) != 2 {
 		return false
 	}
-	if identObj(c.info, ret.Results[0]) != c.zero || isNilIdent(ret.Results[1]) {
+	if !c.isZero(ret.Results[0]) || isNilIdent(ret.Results[1]) {
 		return false
 	}
 	t := c.info.TypeOf(ret.Results[1])
@@ -543,7 +552,7 @@ func (c *pmCtx) storesIn(n ast.Node) (fields []*types.Var, paths []string, forei
 						foreign = append(foreign, types.ExprString(l))
 					}
 				}
-				if rootIsObj(c.info, l, c.zero) {
+				if c.zero != nil && rootIsObj(c.info, l, c.zero) {
 					foreign = append(foreign, types.ExprString(l))
 				}
 			}
@@ -631,7 +640,7 @@ func (c *pmCtx) typestate(row *ParamRow, blk *ast.BlockStmt, vals, okObj types.O
 	exit := func(s tsState, ret *ast.ReturnStmt) {
 		reject, named := false, false
 		if ret != nil {
-			if len(ret.Results) == 2 && identObj(info, ret.Results[0]) == c.zero && !isNilIdent(ret.Results[1]) {
+			if len(ret.Results) == 2 && c.isZero(ret.Results[0]) && !isNilIdent(ret.Results[1]) {
 				reject = true
 				named = c.errNames(ret.Results[1], row.Key)
 			} else {
